@@ -216,6 +216,13 @@ class FlowGraph:
             fiber_node = FiberNode(tensor.fiber_name())
             self.graph.add_edge(fiber_node, LoopNode(rank))
 
+            # The metrics header of this loop may trace the fiber, so a fiber
+            # produced by a getPayload() must be available before it
+            if self.metrics and any(
+                    isinstance(pred, GetPayloadNode)
+                    for pred in self.graph.predecessors(fiber_node)):
+                self.graph.add_edge(fiber_node, MetricsHeaderNode(rank))
+
         # Update the iter_map with the tensors iterated on at this rank
         self.iter_map[rank] = [tensor.root_name()
                                for tensor in tensors if not tensor.get_is_output()]
